@@ -341,10 +341,7 @@ def run(ctx, rep):
                         if s_['k'] == 'assign' and s_['lhs']['l'] == p['l'] and not s_['lhs']['p']]
                 asg_ += [bj for bj in FF.reachable() if FF.blocks[bj]['term']['k'] == 'call' and
                          FF.blocks[bj]['term']['dest']['l'] == p['l'] and not FF.blocks[bj]['term']['dest']['p']]
-                if len(asg_) != 1 or asg_[0] in loop_blocks or (asg_[0] in (FF.reach_from(list(FF.loops().keys())) if FF.loops() else set()) and
-                                                                  any(s_['k'] == 'assign' and s_['lhs']['l'] == p['l'] and s_['rv']['k'] == 'use' and
-                                                                      op_place(s_['rv']['a']) is not None and FF.locals[op_place(s_['rv']['a'])['l']].get('name')
-                                                                      for s_ in FF.blocks[asg_[0]]['stmts'])):
+                if len(asg_) != 1 or asg_[0] in loop_blocks:
                     return {p['l']}  # a variable the loop maintains
                 # a named value computed once on the way out (`let pos = first_free * 32`): look through it
             out = set()
